@@ -93,8 +93,33 @@ def run(check):
                 idx += 1
                 items.append((c2, s2, g))
 
-        def on_result(cid, case, sem, g, res, vs):
-            pass
+        # goroutine-start and hand-over points delayed: a run may end while a step goroutine has not even begun
+        starts = [p for p in rn.points if ":go#" in p or ".go:entry#" in p or ":wgadd#" in p or ":wgdone#" in p]
+        for j in range(check.pick(60, 600)):
+            rng = random.Random(derive_seed(check.seed, "c05-start", j))
+            sh = rng.choice(["foreach", "foreach_after", "chain", "diamond", "enabled", "fan_in"])
+            prog, scripts, name = cancelfam.prog_finishing(rng, sh)
+            pt = rng.choice(starts) if starts else None
+            if pt is None:
+                break
+            g = {"program": prog, "scripts": scripts, "input": cancelfam.base_input(rng), "shape": "%s/delay@%s" % (name, pt), "fault": ("delay", pt, "")}
+            c2, s2 = runfam.build_case("c05-%05d" % idx, g, plan={"sites": [{"point": pt, "hit": rng.choice([1, 1, 2, 3]), "ms": rng.choice([20, 60])}], "record": True}, plan_scope="execute")
+            idx += 1
+            items.append((c2, s2, g))
+
+        # a step whose output nobody needs: the run ends on its sibling's result while that step's goroutines are being delayed
+        from ..model import Expr, In, Program, Step
+        for j, pt in enumerate(starts):
+            rng = random.Random(derive_seed(check.seed, "c05-unneeded", j))
+            sub = gen.sub_program("sub.yaml", 1)
+            extra = Step("loop", "foreach", sub=sub, items=Expr(In("items")), parallelism=rng.choice([1, 2])) if not pt.startswith("pl:") else gen.plugin_step("side", Expr(In("tag")))
+            steps = [gen.plugin_step("a", Expr(In("tag"))), extra]
+            prog = Program(steps, {"success": {"a": gen.tagref("a")}}, gen.BASE_INPUT)
+            for hit in (1, 2):
+                g = {"program": prog, "scripts": gen.make_scripts(steps, {}), "input": cancelfam.base_input(rng), "shape": "unneeded-%s/delay@%s#%d" % (extra.kind, pt, hit), "fault": ("delay", pt, hit)}
+                c2, s2 = runfam.build_case("c05-%05d" % idx, g, plan={"sites": [{"point": pt, "hit": hit, "ms": 60}], "record": True}, plan_scope="execute")
+                idx += 1
+                items.append((c2, s2, g))
 
         out = rn.run_cases([c for c, _s, _g in items], per_case_timeout=90)
     by_id = {c["id"]: (c, s, g) for c, s, g in items}
